@@ -1099,7 +1099,25 @@ def fd_lemmas(B, sc, abi, U, zero_bias=False):
 
 
 def id_lemmas(B, sc, U, zero_bias=False):
-    """calcBodyAccelerationsFromUdotOutward + calcInverseDynamicsPass2Inward (zero_bias: multiplyByMPass1Outward / Pass2Inward)"""
+    """calcBodyAccelerationsFromUdotOutward + calcInverseDynamicsPass2Inward (zero_bias: multiplyByMPass1Outward / Pass2Inward).
+    The node code is run once per decision vector over (up to 2) symbolic branches: on the pinned tree it has none (all scripts give the same
+    empty path), but a guard such as `if (V_GB[0] != 0)` introduced around a term must be explored on both sides, each under its path condition."""
+    ok = True
+    seen = set()
+    for path, script, res in B.run_paths(lambda: _id_run(B, sc, zero_bias), 2):
+        key = tuple(str(c_) for c_ in path)
+        if key in seen:
+            continue
+        seen.add(key)
+        if path:
+            s_ = z3.Solver(); s_.set("timeout", 10000); s_.add(*path)
+            if s_.check() == z3.unsat:
+                continue
+        ok &= _id_prove(B, sc, U, zero_bias, res, list(path), "" if len(seen) == 1 else " [path %d]" % len(seen))
+    return dict(ok=ok)
+
+
+def _id_run(B, sc, zero_bias):
     n, tok, dof = sc.n, sc.tok, sc.dof
     w = _arrays(sc)
     nb = sc.nb
@@ -1109,23 +1127,28 @@ def id_lemmas(B, sc, U, zero_bias=False):
         Fc[c.nodeNum] = sv("Fc%d_" % k)
     tau = RArr(dof + len(sc.children))
     if zero_bias:
-        fn = SPEC + "multiplyByMPass1Outward/Pass2Inward"
         a, b, Fapp, fapp = zero_sv(), zero_sv(), zero_sv(), Vec([0] * dof)
         n.multiplyByMPass1Outward(tok, w["udot"], w["A"])
         n.multiplyByMPass2Inward(tok, w["A"], Fc, tau)
-        tag = "MM"
     else:
-        fn = SPEC + "calcBodyAccelerationsFromUdotOutward/calcInverseDynamicsPass2Inward"
         a, b = sv("a"), sv("b")
         n.setMobilizerCoriolisAcceleration(tok, a); n.setGyroscopicForce(tok, b)
+        n.setV_GB(tok, sv("Vgb"))                      # realized velocity of this body: arbitrary (the pinned code does not read it here)
         Fapp, fapp = w["F"][n.nodeNum], n.fromU(w["f"])
         n.calcBodyAccelerationsFromUdotOutward(tok, tok, w["udot"], w["A"])
         n.calcInverseDynamicsPass2Inward(tok, tok, w["A"], w["f"], w["F"], Fc, tau)
-        tag = "ID"
+    return w, Fc, tau, a, b, Fapp, fapp
+
+
+def _id_prove(B, sc, U, zero_bias, res, hyp, sfx):
+    n, dof = sc.n, sc.dof
+    w, Fc, tau, a, b, Fapp, fapp = res
+    fn = SPEC + ("multiplyByMPass1Outward/Pass2Inward" if zero_bias else "calcBodyAccelerationsFromUdotOutward/calcInverseDynamicsPass2Inward")
+    tag = "MM" if zero_bias else "ID"
     A_GB, F = w["A"][n.nodeNum], Fc[n.nodeNum]
     udot = n.fromU(w["udot"])
     ok = True
-    ok &= prove(B, None, "%s1 A_GB == shift(A_GP) + H*udot + a" % tag, A_GB, sc.shift_out(sc.l, w["A"][0]) + sc.H * udot + a, [], U, fn)
+    ok &= prove(B, None, "%s1 A_GB == shift(A_GP) + H*udot + a%s" % (tag, sfx), A_GB, sc.shift_out(sc.l, w["A"][0]) + sc.H * udot + a, hyp, U, fn)
     # Newton-Euler at the body origin, written out from mass, mass centre c and inertia I = m*G about the origin:
     #   force  = m (a_lin + alpha x c),  moment = I alpha + m c x a_lin   (+ gyroscopic b)
     m_, c_, I_ = sc.Mk.m, sc.Mk.p, sc.Mk.G.I_OF_F
@@ -1134,9 +1157,9 @@ def id_lemmas(B, sc, U, zero_bias=False):
     Fexp = NE + b - Fapp
     for c in sc.children:
         Fexp = Fexp + sc.shift_in(c.l, Fc[c.nodeNum])
-    ok &= prove(B, None, "%s2 F == Mk*A_GB + b - F_applied + sum_c shift(F_c)  (Newton-Euler at the body origin + shifted child forces)" % tag, F, Fexp, [], U, fn)
-    ok &= prove(B, None, "%s3 tau == ~H*F - f_applied" % tag, Vec(list(n.fromU(tau))), Vec([S.dot(list(sc.H.cols[j][0]), list(F[0])) + S.dot(list(sc.H.cols[j][1]), list(F[1])) for j in range(dof)]) - fapp, [], U, fn)
-    return dict(ok=ok)
+    ok &= prove(B, None, "%s2 F == Mk*A_GB + b - F_applied + sum_c shift(F_c)  (Newton-Euler at the body origin + shifted child forces)%s" % (tag, sfx), F, Fexp, hyp, U, fn)
+    ok &= prove(B, None, "%s3 tau == ~H*F - f_applied%s" % (tag, sfx), Vec(list(n.fromU(tau))), Vec([S.dot(list(sc.H.cols[j][0]), list(F[0])) + S.dot(list(sc.H.cols[j][1]), list(F[1])) for j in range(dof)]) - fapp, hyp, U, fn)
+    return ok
 
 
 def dual_sv(x, dx):
